@@ -1,8 +1,7 @@
-// TRUSTED: stand-ins for hibitset::{BitSet, AtomicBitSet, BitSetOr, BitSetAnd, BitSetNot, BitSetAll, BitIter}.
-// Contract = hibitset documentation: a set of u32 indices; iteration yields the
-// members in strictly ascending order, each exactly once. AtomicBitSet is sequentialised (N3).
-
-// the ascending enumeration of a set of indices
+// TRUSTED: stand-ins for hibitset's BitSetLike family as used by the join machinery (src/join/*).
+// Contract = hibitset documentation: a bit set is a set of u32 indices; `iter()` yields its members in strictly
+// ascending order, each exactly once; BitIter::contains asks the underlying set; BitSetNot is the complement,
+// BitSetAll every index, BitSetAnd the intersection. The layered skip logic inside hibitset is NOT verified here.
 pub uninterp spec fn sorted_seq(s: Set<u32>) -> Seq<u32>;
 #[verifier::external_body]
 pub broadcast proof fn axiom_sorted_seq(s: Set<u32>)
@@ -10,41 +9,107 @@ pub broadcast proof fn axiom_sorted_seq(s: Set<u32>)
         forall|a: int, b: int| 0 <= a < b < (#[trigger] sorted_seq(s)).len() ==> sorted_seq(s)[a] < sorted_seq(s)[b],
         forall|i: u32| s.contains(i) <==> sorted_seq(s).contains(i),
 {}
+pub uninterp spec fn all_u32() -> Set<u32>;
+#[verifier::external_body]
+pub broadcast proof fn axiom_all_u32(i: u32)
+    ensures #[trigger] all_u32().contains(i),
+{}
+
+pub trait BitSetLike: Sized {
+    spec fn bview(&self) -> Set<u32>;
+    fn contains(&self, i: u32) -> (r: bool)
+        ensures r == self.bview().contains(i);
+    fn iter(self) -> (r: BitIter<Self>)
+        ensures r.rem() == sorted_seq(self.bview()), r.set_view() == self.bview();
+}
 
 #[verifier::external_body]
 pub struct BitSet { x: u8 }
 impl BitSet {
     pub uninterp spec fn view(&self) -> Set<u32>;
     #[verifier::external_body]
-    pub fn new() -> (r: BitSet) ensures r@ == Set::<u32>::empty() { unimplemented!() }
-    #[verifier::external_body]
-    pub fn add(&mut self, id: Index) -> (r: bool)
+    pub fn add(&mut self, id: u32) -> (r: bool)
         ensures final(self)@ == old(self)@.insert(id), r == old(self)@.contains(id)
     { unimplemented!() }
     #[verifier::external_body]
-    pub fn remove(&mut self, id: Index) -> (r: bool)
+    pub fn remove(&mut self, id: u32) -> (r: bool)
         ensures final(self)@ == old(self)@.remove(id), r == old(self)@.contains(id)
-    { unimplemented!() }
-    #[verifier::external_body]
-    pub fn contains(&self, id: Index) -> (r: bool)
-        ensures r == self@.contains(id)
     { unimplemented!() }
     #[verifier::external_body]
     pub fn clear(&mut self)
         ensures final(self)@ == Set::<u32>::empty()
     { unimplemented!() }
     #[verifier::external_body]
-    pub fn is_empty(&self) -> (r: bool)
-        ensures r == (self@ == Set::<u32>::empty())
-    { unimplemented!() }
-    #[verifier::external_body]
-    pub fn iter(&self) -> (r: BitIter)
-        ensures r.rem() == sorted_seq(self@)
-    { unimplemented!() }
+    pub fn new() -> (r: BitSet) ensures r@ == Set::<u32>::empty() { unimplemented!() }
 }
 impl Clone for BitSet {
     #[verifier::external_body]
     fn clone(&self) -> (r: BitSet) ensures r@ == self@ { unimplemented!() }
+}
+impl BitSetLike for BitSet {
+    open spec fn bview(&self) -> Set<u32> { self@ }
+    #[verifier::external_body]
+    fn contains(&self, i: u32) -> (r: bool) { unimplemented!() }
+    #[verifier::external_body]
+    fn iter(self) -> (r: BitIter<Self>) { unimplemented!() }
+}
+impl<'a> BitSetLike for &'a BitSet {
+    open spec fn bview(&self) -> Set<u32> { (**self)@ }
+    #[verifier::external_body]
+    fn contains(&self, i: u32) -> (r: bool) { unimplemented!() }
+    #[verifier::external_body]
+    fn iter(self) -> (r: BitIter<Self>) { unimplemented!() }
+}
+pub struct BitSetAll;
+impl BitSetLike for BitSetAll {
+    open spec fn bview(&self) -> Set<u32> { all_u32() }
+    #[verifier::external_body]
+    fn contains(&self, i: u32) -> (r: bool) { unimplemented!() }
+    #[verifier::external_body]
+    fn iter(self) -> (r: BitIter<Self>) { unimplemented!() }
+}
+pub struct BitSetNot<A: BitSetLike>(pub A);
+impl<A: BitSetLike> BitSetLike for BitSetNot<A> {
+    open spec fn bview(&self) -> Set<u32> { all_u32() - self.0.bview() }
+    #[verifier::external_body]
+    fn contains(&self, i: u32) -> (r: bool) { unimplemented!() }
+    #[verifier::external_body]
+    fn iter(self) -> (r: BitIter<Self>) { unimplemented!() }
+}
+pub struct BitSetAnd<A: BitSetLike, B: BitSetLike>(pub A, pub B);
+impl<A: BitSetLike, B: BitSetLike> BitSetLike for BitSetAnd<A, B> {
+    open spec fn bview(&self) -> Set<u32> { self.0.bview().intersect(self.1.bview()) }
+    #[verifier::external_body]
+    fn contains(&self, i: u32) -> (r: bool) { unimplemented!() }
+    #[verifier::external_body]
+    fn iter(self) -> (r: BitIter<Self>) { unimplemented!() }
+}
+
+#[verifier::external_body]
+#[verifier::reject_recursive_types(B)]
+pub struct BitIter<B> { x: core::marker::PhantomData<B> }
+impl<B> BitIter<B> {
+    pub uninterp spec fn rem(&self) -> Seq<u32>;        // indices still to be yielded, ascending
+    pub uninterp spec fn set_view(&self) -> Set<u32>;   // the whole underlying set
+    #[verifier::external_body]
+    pub fn contains(&self, i: u32) -> (r: bool)
+        ensures r == self.set_view().contains(i)
+    { unimplemented!() }
+    // Iterator::next, as an inherent method so that it can carry its contract
+    #[verifier::external_body]
+    pub fn next(&mut self) -> (r: Option<u32>)
+        ensures
+            final(self).set_view() == old(self).set_view(),
+            old(self).rem().len() == 0 ==> r is None && final(self).rem() == old(self).rem(),
+            old(self).rem().len() > 0 ==> r == Some(old(self).rem()[0]) && final(self).rem() == old(self).rem().drop_first(),
+    { unimplemented!() }
+}
+
+impl BitSet {
+    #[verifier::external_body]
+    pub fn is_empty(&self) -> (r: bool)
+        ensures r == (self@ == Set::<u32>::empty())
+    { unimplemented!() }
 }
 
 #[verifier::external_body]
@@ -52,52 +117,58 @@ pub struct AtomicBitSet { x: u8 }
 impl AtomicBitSet {
     pub uninterp spec fn view(&self) -> Set<u32>;
     #[verifier::external_body]
-    pub fn add_atomic(&mut self, id: Index) -> (r: bool)
+    pub fn add_atomic(&mut self, id: u32) -> (r: bool)
         ensures final(self)@ == old(self)@.insert(id), r == old(self)@.contains(id)
     { unimplemented!() }
     #[verifier::external_body]
-    pub fn add(&mut self, id: Index) -> (r: bool)
+    pub fn add(&mut self, id: u32) -> (r: bool)
         ensures final(self)@ == old(self)@.insert(id), r == old(self)@.contains(id)
     { unimplemented!() }
     #[verifier::external_body]
-    pub fn remove(&mut self, id: Index) -> (r: bool)
+    pub fn remove(&mut self, id: u32) -> (r: bool)
         ensures final(self)@ == old(self)@.remove(id), r == old(self)@.contains(id)
-    { unimplemented!() }
-    #[verifier::external_body]
-    pub fn contains(&self, id: Index) -> (r: bool)
-        ensures r == self@.contains(id)
     { unimplemented!() }
     #[verifier::external_body]
     pub fn clear(&mut self)
         ensures final(self)@ == Set::<u32>::empty()
     { unimplemented!() }
+}
+impl BitSetLike for AtomicBitSet {
+    open spec fn bview(&self) -> Set<u32> { self@ }
     #[verifier::external_body]
-    pub fn iter(&self) -> (r: BitIter)
-        ensures r.rem() == sorted_seq(self@)
-    { unimplemented!() }
+    fn contains(&self, i: u32) -> (r: bool) { unimplemented!() }
+    #[verifier::external_body]
+    fn iter(self) -> (r: BitIter<Self>) { unimplemented!() }
 }
-
-// BitIter: the iterator returned by BitSetLike::iter()
-#[verifier::external_body]
-pub struct BitIter { x: u8 }
-impl BitIter {
-    pub uninterp spec fn rem(&self) -> Seq<u32>;
+impl<'a> BitSetLike for &'a AtomicBitSet {
+    open spec fn bview(&self) -> Set<u32> { (**self)@ }
+    #[verifier::external_body]
+    fn contains(&self, i: u32) -> (r: bool) { unimplemented!() }
+    #[verifier::external_body]
+    fn iter(self) -> (r: BitIter<Self>) { unimplemented!() }
 }
-impl Iterator for BitIter {
+// BitSetOr(a, b): the union of two bit sets
+pub struct BitSetOr<A: BitSetLike, B: BitSetLike>(pub A, pub B);
+impl<A: BitSetLike, B: BitSetLike> BitSetLike for BitSetOr<A, B> {
+    open spec fn bview(&self) -> Set<u32> { self.0.bview() + self.1.bview() }
+    #[verifier::external_body]
+    fn contains(&self, i: u32) -> (r: bool) { unimplemented!() }
+    #[verifier::external_body]
+    fn iter(self) -> (r: BitIter<Self>) { unimplemented!() }
+}
+impl<A: BitSetLike, B: BitSetLike> BitSetOr<A, B> {
+    pub open spec fn view(&self) -> Set<u32> { self.0.bview() + self.1.bview() }
+}
+// `for i in bits.iter()` support (vstd's for-loop protocol)
+impl<B> Iterator for BitIter<B> {
     type Item = u32;
     #[verifier::external_body]
     fn next(&mut self) -> Option<u32> { unimplemented!() }
 }
-impl vstd::std_specs::iter::IteratorSpecImpl for BitIter {
+impl<B> vstd::std_specs::iter::IteratorSpecImpl for BitIter<B> {
     open spec fn obeys_prophetic_iter_laws(&self) -> bool { true }
     open spec fn remaining(&self) -> Seq<u32> { self.rem() }
     open spec fn will_return_none(&self) -> bool { true }
     open spec fn decrease(&self) -> Option<nat> { Some(self.rem().len()) }
     open spec fn peek(&self, i: int) -> Option<u32> { if 0 <= i < self.rem().len() { Some(self.rem()[i]) } else { None } }
-}
-
-// BitSetOr(a, b): the union of two bit sets (here only at the instantiation the entities join uses)
-pub struct BitSetOr<A, B>(pub A, pub B);
-impl<'a> BitSetOr<&'a BitSet, &'a AtomicBitSet> {
-    pub open spec fn view(&self) -> Set<u32> { self.0@ + self.1@ }
 }
